@@ -953,7 +953,7 @@ class OP2:
                 size = (0, 0)
                 s = f"Table  {name:8}"
             cur = self._fileh.tell()
-            s += f", bytes = {cur-pos-1:10} [{pos:10} to {cur:10}]"
+            s += f", bytes = {cur-pos:10} [{pos:10} to {cur:10}]"
             if size != (0, 0):
                 s += f", {size[0]:6} x {size[1]:<}"
             if name not in self.dbdct:
@@ -963,7 +963,7 @@ class OP2:
                 name=name,
                 start=pos,
                 stop=cur,
-                nbytes=cur - pos - 1,
+                nbytes=cur - pos,
                 dbtype=dbtype,
                 size=size,
                 trailer=trailer,
@@ -971,7 +971,7 @@ class OP2:
             )
             self.dbdct[name].append(sns)
             self.dblist.append(sns)
-            self.dbnames[name].append([[pos, cur], cur - pos - 1, size])
+            self.dbnames[name].append([[pos, cur], cur - pos, size])
             self.dbstrings.append(s)
             self.names.append(name)
             self.dbstarts.append(pos)
